@@ -39,6 +39,22 @@ def run(tier):
     if not os.path.exists(tp + ".ok"):
         raise vlib.FrameworkError("racesim did not finish")
     ev = vlib.read_ndjson(tp)
+    # the concurrent-history harnesses of C11 / C20 (admin actors + clients, pool users in real parallel) once more,
+    # built with the race detector: their schedules are another workload for it (histories are not judged here)
+    rnd = random.Random(vlib.seed() + 1)
+    for hname, files, gen, n in (("linsim", ["linsim/main.go"], "GenLin", 400 if tier == "thorough" else 120),
+                                 ("poolconc", ["poolconc/main.go"], "GenLinPool", 1500 if tier == "thorough" else 400)):
+        hb = vlib.go_build(hname + "_race", "internal/zz_verif/" + hname, [hname + "/main.go"], sd, race=True,
+                           extra_overlay={"internal/loadbalancer/zz_verif_export.go": "accessors/lb_verif_export.go"})
+        cs, r = cases.enumerate_cases(gen, gen + ".cfg", env={"TIER": "quick"})
+        sample = rnd.sample(cs, min(n, len(cs)))
+        cp = os.path.join(sd, hname + ".race.cases.ndjson")
+        op = os.path.join(sd, hname + ".race.out.ndjson")
+        vlib.write_ndjson(cp, sample)
+        vlib.run([hb, cp, op, "2"], timeout=3000, env=env, ok_codes=(0, 66))
+        if not os.path.exists(op + ".ok"):
+            raise vlib.FrameworkError(hname + " (race build) did not finish")
+        chk.cov["race_workload_" + hname] = len(sample)
     # one event per distinct race report (signature: the two access sites in Helios code)
     seen = {}
     for f in glob.glob(os.path.join(sd, "racelog*")):
